@@ -354,7 +354,7 @@ def plan(exp, tier):
         specs = kani_driver.load_specs('c12')
         if specs:
             p.kani = specs
-    p.not_decided += ['ProgressMapperFn (fn-pointer progress mapper): function pointer types are outside Verus\'s subset',
+    p.not_decided += ['ProgressMapperFn (fn-pointer progress mapper) is outside Verus\'s subset: proved by Kani on the real code (c12_progress_mapper_fn, c12_transition_with_mapper_fn)',
                       'quaternion slerp: the theorem (unit length, angle t*theta with the start, both end points) is proved for from.to >= 0 in the trigonometric branch; for from.to < 0 (sign flip) and in the near-parallel nlerp branch only the by-cases contract is proved',
                       'integer Lerp impls: decided by Kani harnesses in /verif/kani/c12 when present',
                       'to-rounding-error clauses for f32/f64 (exact real arithmetic is used)']
